@@ -259,7 +259,21 @@ func genC09(seed, index uint64, tier string) *Plan {
 		op.Atomic = g.Chance(0.2)
 		grp = append(grp, op)
 	}
-	p.Steps = append(p.Steps, Step{Group: grp})
+	gst := Step{Group: grp}
+	if start == 1 && tier != "race" && g.Chance(0.2) {
+		// one of the concurrent operations is an upgrade --atomic that the cluster refuses half-way: its automatic rollback
+		// (a revision in pending-rollback) runs while the others arrive, and must keep them out like any pending operation
+		for i := range gst.Group {
+			if gst.Group[i].Op == "upgrade" {
+				gst.Group[i].Atomic = true
+				gst.Group[i].NoHooks = true
+				gst.Faults = []FaultSpec{{Kind: FReject, Code: 403, Proc: fmt.Sprintf("p%d.%d", len(p.Steps), i),
+					Pred: &Pred{Storage: boolp(false), Mutating: boolp(true), PathHas: "/namespaces/", Nth: 1 + g.N(2)}}}
+				break
+			}
+		}
+	}
+	p.Steps = append(p.Steps, gst)
 	if n == 3 || g.Chance(0.3) {
 		p.Policy = "pct"
 		p.PCTPrio = []int{g.N(100), g.N(100), g.N(100)}
@@ -271,6 +285,9 @@ func genC09(seed, index uint64, tier string) *Plan {
 	} else {
 		p.Policy = "uniform"
 		p.Variant = fmt.Sprintf("uniform-%d", n)
+	}
+	if len(gst.Faults) > 0 {
+		p.Variant += "-atomic-rollback"
 	}
 	p.Schedule = g.Schedule(160)
 	if tier == "race" {
